@@ -3,6 +3,7 @@
 From Coq Require Import List NArith Arith Bool String.
 From RPCX Require Import Server.Dispatch Server.Ingress Server.IngressProofs Server.Plugins Server.PluginsGen Server.PluginsProofs
   Server.StockPlugins Server.StockPluginsProofs.
+From RPCX Require Server.Gate Server.GateProofs.
 Import ListNotations.
 Open Scope string_scope.
 
@@ -86,6 +87,21 @@ Example C15_nonvacuous :
 Proof. split; reflexivity. Qed.
 
 Print Assumptions C15_rejected_never_reaches_a_handler.
+(* The native connection loop with its refusals answered by the reader (Server/Gate.v), any number of connections,
+   any interleaving of reads and completions: every handler invocation belongs to a request that was read and that
+   neither a PostReadRequest plugin nor AuthFunc refused. *)
+Theorem C15_native_loop_refused_requests_reach_no_handler : forall find codec_ok decodable handler hmeta limited denied es i,
+  In i (invoked (Gate.gbase (Gate.grun find codec_ok decodable handler hmeta limited denied Gate.ginit es))) ->
+  exists c rid q, In (CRead c rid q) es /\ Gate.refusal limited denied q = None /\
+                  In i (snd (process find codec_ok decodable handler hmeta q)).
+Proof. exact GateProofs.refused_requests_never_reach_a_handler. Qed.
+
+(* only a failed authentication closes the connection, and heartbeats are not authenticated *)
+Theorem C15_only_failed_authentication_closes : forall limited denied q t,
+  Gate.refusal limited denied q = Some (t, true) ->
+  q_hb q = false /\ denied (q_path q) (q_meth q) (q_args q) = Some t /\ limited (q_path q) (q_meth q) (q_args q) = None.
+Proof. exact GateProofs.only_auth_closes. Qed.
+
 Print Assumptions C15_any_rejecting_plugin_wherever_registered.
 Print Assumptions C15_rejecting_stages_stop_at_the_first_rejection.
 Print Assumptions C15_native_auth_failure_closes.
@@ -94,3 +110,5 @@ Print Assumptions C15_whitelist_rule.
 Print Assumptions C15_blacklist_rule.
 Print Assumptions C15_rate_limit_passes_exactly_capacity.
 Print Assumptions C15_refused_connection_reaches_no_handler.
+Print Assumptions C15_native_loop_refused_requests_reach_no_handler.
+Print Assumptions C15_only_failed_authentication_closes.
